@@ -4,6 +4,8 @@ import (
 	"bytes"
 	"encoding/json"
 	"fmt"
+	"iter"
+	"sort"
 	"strings"
 
 	"github.com/ddddddO/gtree"
@@ -59,6 +61,7 @@ type c13Replay struct {
 type c13World struct {
 	real  [2][]*gtree.Node
 	model [2][]*model.Node
+	held  [2]iter.Seq2[*gtree.WalkerNode, error] // a WalkIter sequence obtained earlier and not yet ranged over
 }
 
 const c13MdDoc = "- x\n  - y\n  - z\n    - w\n"
@@ -91,6 +94,25 @@ func (w *c13World) observe(k string, t int) (got, want string, pan string) {
 			wr = append(wr, fmt.Sprintf("%s|%s|%d|%v", r.Line, r.Path, r.Level, r.HasChild))
 		}
 		return fmt.Sprintf("%q err=%v", rows, err), fmt.Sprintf("%q err=<nil>", wr), p
+	case "R":
+		// range over the sequence obtained earlier by step S: it describes the tree as it is NOW, with the default
+		// branch strings, whatever was called in between
+		var rows []string
+		var err error
+		p := sut.Guard(func() {
+			for wn, e := range w.held[t] {
+				if e != nil {
+					err = e
+					break
+				}
+				rows = append(rows, fmt.Sprintf("%s|%s|%d|%v", wn.Row(), wn.Path(), wn.Level(), wn.HasChild()))
+			}
+		})
+		var wr []string
+		for _, r := range model.Rows(m, model.DefaultFmt) {
+			wr = append(wr, fmt.Sprintf("%s|%s|%d|%v", r.Line, r.Path, r.Level, r.HasChild))
+		}
+		return fmt.Sprintf("%q err=%v", rows, err), fmt.Sprintf("%q err=<nil>", wr), p
 	case "J":
 		out, err, p := sut.OutputRoot(root, gtree.WithEncodeJSON())
 		f, derr := decode("json", out)
@@ -108,6 +130,24 @@ func (w *c13World) observe(k string, t int) (got, want string, pan string) {
 			return fmt.Sprintf("%q err!=nil:%v", buf.String(), err != nil), `"" err!=nil:true`, p
 		}
 		return fmt.Sprintf("%q err=%v", buf.String(), err), fmt.Sprintf("%q err=<nil>", model.RenderRoot(m, model.DefaultFmt)+fmt.Sprintf("\n%d directories, %d files\n", d, f)), p
+	case "K":
+		// a real Mkdir into a fresh directory: rejected (nothing created anywhere) iff a name is not a valid path
+		// element, else exactly the tree is created
+		j := fsx.NewJail("c13k")
+		defer j.Remove()
+		before := fsx.Snapshot(j.Root)
+		var err error
+		p := sut.Guard(func() { err = gtree.MkdirFromRoot(root, gtree.WithTargetDir(j.Target)) })
+		after := fsx.Snapshot(j.Root)
+		if hasInvalidName(m) {
+			return fmt.Sprintf("err!=nil:%v changed:%q", err != nil, fsx.Diff(before, after)), `err!=nil:true changed:""`, p
+		}
+		want := []string{}
+		for pth := range model.Plan(model.Forest{m}, nil) {
+			want = append(want, "+p/q/target/"+pth+"(d)")
+		}
+		sort.Strings(want)
+		return fmt.Sprintf("err=%v created:%s", err, fsx.Diff(before, after)), fmt.Sprintf("err=<nil> created:%s", strings.Join(want, " ")), p
 	case "V":
 		// verify against an empty directory: always "root missing" for valid names, a name error otherwise; never nil
 		if c13Jail == nil {
@@ -125,6 +165,7 @@ func (w *c13World) observe(k string, t int) (got, want string, pan string) {
 func (w *c13World) apply(h hop) {
 	switch h.K {
 	case "N":
+		w.held[h.T] = nil
 		w.real[h.T] = []*gtree.Node{gtree.NewRoot(h.Name)}
 		w.model[h.T] = []*model.Node{{Name: h.Name}}
 	case "A":
@@ -141,6 +182,8 @@ func (w *c13World) apply(h hop) {
 		w.model[h.T] = append(w.model[h.T], mk)
 	case "M":
 		sut.Output(c13MdDoc)
+	case "S":
+		w.held[h.T] = gtree.WalkIterFromRoot(w.real[h.T][0])
 	default:
 		w.observe(h.K, h.T)
 	}
@@ -195,12 +238,13 @@ func init() {
 		const maxNodes = 4
 		c.Bound("history_length", fmt.Sprint(maxL))
 		c.Bound("nodes_per_tree", fmt.Sprint(maxNodes))
-		obs := []string{"T", "W", "J", "D", "F"}
+		obs := []string{"T", "W", "J", "D", "F", "K"}
 		addNames := []string{"a", "b", "x/y"} // "x/y" is a legal node name for output and walk, invalid for mkdir/verify
 		// kids[t][node][name] tracks which Adds create nodes, so node indices are exact
 		type st struct {
 			size [2]int
 			kids [2][maxNodes]map[string]bool
+			held [2]bool
 		}
 		var rec func(hist []hop, s *st, L int)
 		rec = func(hist []hop, s *st, L int) {
@@ -213,7 +257,24 @@ func init() {
 					if s.size[t] == 0 {
 						continue
 					}
-					for _, k := range obs {
+					ob := obs
+					if s.held[t] {
+						ob = append(append([]string{}, obs...), "R")
+					}
+					for _, k := range ob {
+						if k == "K" {
+							// the real mkdir (a jail per case) is explored where validation state can matter:
+							// histories with the hostile name, or with a dry-run / verify step before
+							rel := false
+							for _, h := range hist {
+								if h.Name == "x/y" || h.K == "D" || h.K == "V" {
+									rel = true
+								}
+							}
+							if !rel || len(hist) > 5 {
+								continue
+							}
+						}
 						if !c.Take() {
 							continue
 						}
@@ -264,8 +325,13 @@ func init() {
 					}
 				}
 				// operations in the middle of a history (they reset library-internal state)
-				for _, k := range []string{"T", "W", "D", "V"} {
+				for _, k := range []string{"T", "W", "D", "V", "F"} {
 					rec(append(hist, hop{K: k, T: t}), s, L)
+				}
+				if !s.held[t] && t == 0 {
+					s.held[t] = true
+					rec(append(hist, hop{K: "S", T: t}), s, L)
+					s.held[t] = false
 				}
 			}
 			if len(hist) > 0 {
